@@ -23,9 +23,9 @@ RULE = ("scenarios from the grammar in harness/scen.py with 1-3 connectors of ei
 ASSUMPTIONS = ["equality of the float series is exact (same operations in the same order)",
                "the delegation sentence is judged only for connectors without number_cs (prioritisation changes who "
                "is charged, by design)"]
-UNPROVED = ["C14_deps_is_balanced / C14_opps_is_greedy are proved on the Lean models of the three strategies once the "
-            "greedy/balanced/distributed models are integrated; until then decided by this implementation-vs-"
-            "implementation stream"]
+UNPROVED = ["that a connector's result equals a stand-alone balanced / greedy RUN over many steps is decided by the "
+            "implementation-vs-implementation stream; the theorems state it per step (the step at a depot / opportunity "
+            "connector is the sub-strategy's step model on that connector's virtual world; other connectors untouched)"]
 EPS = 1e-5
 
 
